@@ -122,15 +122,55 @@ Proof. exact valid_uri_iri_ok. Qed.
 Print Assumptions C05_valid_uri_is_iriref.
 
 (* ---------------------------------------------------------------- the line reader (first half of the property)
-   The reader model of Grammar/Reader.v is tied to the source by the correspondence suite "ntread"; what is
-   proved about it here is (1) that it was written for exactly the regular expressions the tree under test
-   contains now, (2) that its escape table is the ECHAR production.  The completeness statement
+   The reader model of Grammar/Reader.v (W3CNTriplesParser / NQuadsParser.parseline with the module's regular
+   expressions, unquote = decodeUnicodeEscape) is tied to the source by the correspondence suite "ntread" and by the
+   pinned regular expressions.  Completeness: every line the W3C grammar accepts as one statement - whatever white
+   space, comment, ECHAR / \u / \U spelling its author chose - is read by rdflib's reader (as repaired by 4cbe7459)
+   to the same statement, outside the regions of the three open reader findings:
+     C05f a blank node label with a non-ASCII character, C05g an IRIREF with a raw Unicode white space character,
+     C05h an IRIREF none of whose colons is written as such   ([line_kf nq l = 0]).
+   Blank nodes keep their document labels in the model (the harness maps rdflib's fresh nodes back through
+   bnode_context), so "up to blank node relabelling" is equality here.  A line is what readline() returns: no CR, no LF.
+   NOT proved: the same statement for whole documents (that readline's cutting at CR / LF / CRLF agrees with the
+   grammar's EOL handling); it is tested, with the Coq strict reader as the judge, on every generated document and on
+   the W3C syntax suites. *)
+Theorem C05_nt_reads_legal : forall nq l q,
+  no_eol l = true -> strict_parse nq l = Some q -> line_kf nq l = 0 ->
+  rd_parseline nq l = Some (Some q).
+Proof. exact reads_legal_line. Qed.
+Print Assumptions C05_nt_reads_legal.
 
-     C05_nt_reads_legal : forall nq d qs, strict_doc nq d = Some qs -> rd_kf' d = 0 ->
-                          exists qs', rd_doc nq d = Some qs' /\ qs_equiv qs' qs = true
+(* the same, stated on the grammar's statement production: anything may follow the final dot that the grammar
+   allows there (white space and a comment) *)
+Theorem C05_nt_reads_legal_statement : forall nq l q rest,
+  p_statement nq l = Some (q, rest) -> skip_comment rest = [] -> line_kf nq l = 0 ->
+  rd_parseline nq l = Some (Some q).
+Proof. exact reads_legal_statement. Qed.
+Print Assumptions C05_nt_reads_legal_statement.
 
-   is NOT proved (see notes/C05.md); it is tested on every generated legal document and on the W3C syntax
-   tests, with the Coq strict reader as the judge. *)
+(* term level: every spelling of an IRIREF / a string literal body that the grammar accepts denotes, for the
+   reader's regular expression + unquote, what it denotes in the grammar *)
+Theorem C05_iriref_spellings : forall l v r, p_iriref l = Some (v, r) -> iri_raw_kf (raw_of l r) = 0 ->
+  exists raw, rd_uriref_raw l = Some (raw, r) /\ unquote raw = Some v.
+Proof. exact p_iriref_rd. Qed.
+Print Assumptions C05_iriref_spellings.
+Theorem C05_string_spellings : forall n l lex r1, str_body n l = Some (lex, r1) ->
+  exists raw, l = raw ++ 34 :: r1 /\
+    (forall m, (length l < m)%nat -> lit_scan m l = Some (raw, r1)) /\
+    (forall m, (length raw <= m)%nat -> rd_unquote m raw = Some lex).
+Proof. exact str_body_raw. Qed.
+Print Assumptions C05_string_spellings.
+
+(* non-vacuity: an N-Quads line without any white space, with ECHAR, \u and \U escapes in the literal and in the
+   IRIs, a language tag, a blank node graph label and a comment is in scope and read *)
+Example C05_reads_legal_nonvacuous :
+  let l := [95;58;115;46;120; 60;97;58;92;117;48;48;55;48;62; 34;92;110;92;117;48;48;101;57;92;85;48;48;48;49;70;54;48;48;34;64;101;110;45;85;83;
+            95;58;103; 46; 35;32;99] in
+  no_eol l = true /\ line_kf true l = 0 /\
+  strict_parse true l = Some ((Bn [115;46;120], Iri [97;58;112], Lit [10;233;128512] (LLang [101;110;45;85;83])), Some (Bn [103])) /\
+  rd_parseline true l = Some (strict_parse true l).
+Proof. vm_compute. repeat split; reflexivity. Qed.
+
 Theorem C05_reader_regexes_pinned_partial :
   nt_uriref_src = [60; 40; 91; 94; 58; 93; 43; 58; 91; 94; 92; 115; 34; 60; 62; 93; 42; 41; 62]
   /\ nt_r_wspace_src = [91; 32; 92; 116; 93; 42]
